@@ -917,6 +917,19 @@ func verifLenIsHeaderPlusLength(p *PathAttribute) bool {
 //@   claims at-call
 //@   at-call msg.Header.Serialize( requires int(msg.Header.Len) == BGP_HEADER_LENGTH + len(b) && called(IsExtendedMessageSerialization)
 
+// from C08 "what is sent in the OPEN reflects the configuration": the length octets of the OPEN and of its
+// Capabilities parameter say how many octets follow - more than 255 cannot be said (without RFC 9072) and must not
+// be sent truncated
+//@ props C08 C04
+//@ func (*OptionParameterCapability).Serialize
+//@   requires o != nil
+//@   claims at-return
+//@   at-return requires ret1 == nil ==> len(ret0) >= 2 && int(ret0[1]) == len(ret0) - 2
+//@ func (*BGPOpen).Serialize
+//@   requires msg != nil
+//@   claims at-return
+//@   at-return requires ret1 == nil ==> len(ret0) >= 10 && int(ret0[9]) == len(ret0) - 10
+
 // EVPN I-PMSI route (type 9): what the encoder writes is what Len() announces - RD (8) and Ethernet tag (4), then the
 // extended community directly after them - and the decoder knows the route type its own encoder emits
 //@ props C04
